@@ -173,7 +173,9 @@ func (c *FnCtx) evalCall(st *State, call *ast.CallExpr) []Term {
 		myArgs = append(myArgs, c.exprText(a))
 	}
 	c.curCallArgs = myArgs
-	defer func() { c.curCallArgs = prevArgs }()
+	prevExprs := c.curCallExprs
+	c.curCallExprs = call.Args
+	defer func() { c.curCallArgs = prevArgs; c.curCallExprs = prevExprs }()
 	if key == "" {
 		fk := c.funcValKey(call)
 		sig, _ := c.typeOf(call.Fun).Underlying().(*types.Signature)
@@ -347,6 +349,8 @@ func (c *FnCtx) applyContract(st *State, fc *FuncContract, sig *types.Signature,
 			st.assume(cj.Term.S)
 		}
 	}
+	// higher-order step: the callee runs a closure argument on a fresh object
+	c.runInvokes(st, fc, sig, env, nil, pre, pos)
 	// havoc
 	c.havocModifies(st, fc, sc, pre)
 	// results
